@@ -25,7 +25,7 @@ var badKinds = []string{"bad-premature-veto", "bad-immature-coinbase", "bad-doub
 // HeaderMutations are the single-rule block mutations chainkit can build.
 var HeaderMutations = []string{"height-plus1", "height-minus1", "version", "timestamp-early", "timestamp-equal-parent", "timestamp-future", "merkle",
 	"wrong-proposer", "outsider-signature", "bad-signature", "no-signature",
-	"cb-amount-plus1", "cb-proposer-plus", "cb-amount-minus1", "cb-extra-recipient", "cb-missing-recipient", "cb-vote-output", "tx-unbalanced"}
+	"cb-amount-plus1", "cb-proposer-plus", "cb-amount-minus1", "cb-extra-recipient", "cb-missing-recipient", "cb-zero-standin", "cb-vote-output", "tx-unbalanced"}
 
 var badSupKinds = []string{"garbage", "wrong-slot", "non-validator", "other-link", "unused-slot"}
 
